@@ -300,6 +300,8 @@ def reduction(rnd, hazard):
                 A(other, RNG(I(1), V("n"))))]]
     elif kind == "matmul":
         dst, src = rnd.sample(["a", "b", "c"], 2)
+        if rnd.random() < 0.3:
+            src = dst       # result aliases the vector operand
         body = [["assign", V(dst), IC("matmul", V("m2"), V(src))]]
     elif kind == "sum_mask":
         body = [["assign", V("x1"), IC("sum", V(arr),
@@ -314,11 +316,44 @@ def reduction(rnd, hazard):
     return _unit(rnd, body), None
 
 
+def elemaccess(rnd, hazard):
+    """Assignments between array ELEMENTS with constant indices (the shape
+    ArrayAccess2LoopTrans lowers): same index everywhere, an indirectly
+    addressed operand, and operands whose index differs from the target's
+    (in every order)."""
+    w, r1, r2 = rnd.sample(["a", "b", "c"], 3)
+    c1 = rnd.choice([1, 2])
+    c2 = 3 - c1
+    terms = []
+    for _ in range(rnd.randint(1, 3)):
+        x = rnd.random()
+        if x < 0.35:
+            terms.append(A(r1, I(c1)))
+        elif x < 0.6:
+            terms.append(A("m2", I(c1), IC("max", I(1), IC(
+                "min", V("n"), A("ia", I(rnd.choice([1, 2])))))))
+        elif x < 0.8:
+            terms.append(A(r2, I(c2)))
+        elif x < 0.9:
+            terms.append(A(w, I(c1)))
+        else:
+            terms.append(V("x1"))
+    rhs = terms[0]
+    for t in terms[1:]:
+        rhs = B(rnd.choice(["+", "-", "*"]), rhs, t)
+    body = [["assign", A(w, I(c1)), rhs]]
+    if rnd.random() < 0.5:
+        body.append(["assign", A("m2", I(c1), I(c2)),
+                     B("+", A("m2", I(c1), I(c2)),
+                       rnd.choice([A(r1, I(c1)), A(r1, I(c2)), R(1.0)]))])
+    return _unit(rnd, body), None
+
+
 SCENARIOS.update({"arrassign": arrassign, "intrinsic_scalar": intrinsic_scalar,
-                  "reduction": reduction})
+                  "reduction": reduction, "elemaccess": elemaccess})
 C05_SCEN = ["fuse", "swap", "hoist", "induction", "chunk", "foldret",
             "boundexpr"]
-C06_SCEN = ["arrassign", "intrinsic_scalar", "reduction"]
+C06_SCEN = ["arrassign", "intrinsic_scalar", "reduction", "elemaccess"]
 
 
 # =================================================================== C07
@@ -363,6 +398,12 @@ def inline(rnd, hazard):
               decl("res", "r"), decl("jj", "i")]
     fsum = {"kind": "function", "name": "fsum", "args": ["p", "w", "m"],
             "decls": fdecls, "body": fbody, "result": "res"}
+    # ---- two further families, each with its own callee
+    fam = rnd.random()
+    if not hazard and fam < 0.25:
+        return _inline_section_nd(rnd), None
+    if not hazard and fam < 0.4:
+        return _inline_import_clash(rnd), None
     # ---- caller
     style = rnd.choice(["elem_loopvar", "elem_const", "scalar", "section"])
     arr, other = rnd.sample(["a", "b", "c"], 2)
@@ -387,6 +428,95 @@ def inline(rnd, hazard):
     unit = _unit(rnd, body)
     unit["routines"] += [cal, fsum]
     return unit, hz
+
+
+def _inline_section_nd(rnd):
+    """A section of a 3-D local array whose dimensions have different lower
+    bounds is passed to an assumed-size-like dummy: the scalar subscripts and
+    the range may come in any order, the range may be the full extent or a
+    part of it."""
+    from vf.flite import decl
+    los = [rnd.choice([1, 0, -1, 2]) for _ in range(3)]
+    ext = [2, rnd.choice([4, 5]), 3]
+    his = [l + e - 1 for l, e in zip(los, ext)]
+    rdim = rnd.choice([0, 1, 1, 2])
+    m = ext[rdim]
+    full = rnd.random() < 0.6
+    if full:
+        rng = RNG() if rnd.random() < 0.5 else RNG(I(los[rdim]), I(his[rdim]))
+    else:
+        rng = RNG(I(los[rdim] + 1), I(his[rdim]))
+        m -= 1
+    subs = []
+    pre = []
+    for d in range(3):
+        if d == rdim:
+            subs.append(rng)
+        elif rnd.random() < 0.5:
+            subs.append(I(rnd.randint(los[d], his[d])))
+        else:
+            pre.append(["assign", V("t1"), I(rnd.randint(los[d], his[d]))])
+            subs.append(V("t1"))
+    body = [["do", "k", I(los[2]), I(his[2]), None, [
+        ["do", "j", I(los[1]), I(his[1]), None, [
+            ["do", "i", I(los[0]), I(his[0]), None, [
+                ["assign", A("w3", V("i"), V("j"), V("k")),
+                 IC("real", B("+", B("+", V("i"), B("*", I(3), V("j"))),
+                              B("*", I(20), V("k"))), I(8))]]]]]]]]
+    body += pre
+    body.append(["call", "csec", [A("w3", *subs), I(m)]])
+    body.append(["assign", V("x1"), R(0.0)])
+    body.append(["do", "k", I(los[2]), I(his[2]), None, [
+        ["do", "j", I(los[1]), I(his[1]), None, [
+            ["do", "i", I(los[0]), I(his[0]), None, [
+                ["assign", V("x1"), B("+", V("x1"), B(
+                    "*", A("w3", V("i"), V("j"), V("k")),
+                    IC("real", B("+", B("+", V("i"), B("*", I(2), V("j"))),
+                                 B("*", I(7), V("k"))), I(8))))]]]]]]])
+    unit = _unit(rnd, body)
+    unit["routines"][0]["decls"].append(
+        decl("w3", "r", [[los[0], his[0]], [los[1], his[1]],
+                         [los[2], his[2]]]))
+    unit["routines"].append({
+        "kind": "subroutine", "name": "csec", "args": ["x", "m"],
+        "decls": [decl("m", "i", intent="in"),
+                  decl("x", "r", [[None, V("m")]], intent="inout"),
+                  decl("jj", "i")],
+        "body": [["do", "jj", I(1), V("m"), None,
+                  [["assign", A("x", V("jj")),
+                    B("+", A("x", V("jj")),
+                      IC("real", B("*", I(100), V("jj")), I(8)))]]]],
+        "result": None})
+    return unit
+
+
+def _inline_import_clash(rnd):
+    """The callee imports a name from another module that the caller also
+    declares (a local variable or a named constant): the inlined reference
+    must keep meaning the imported entity."""
+    from vf.flite import decl
+    nm = rnd.choice(["scale", "fac"])
+    caller_param = rnd.random() < 0.6
+    body = []
+    if not caller_param:
+        body.append(["assign", V(nm), R(2.0)])
+    body += [["assign", V("x1"), B("+", V("x1"), V(nm))],
+             ["call", "cimp", [V("x1")]],
+             ["assign", V("x2"), B("*", V("x2"), V(nm))]]
+    if rnd.random() < 0.5:
+        body.append(["call", "cimp", [A("a", I(1))]])
+    unit = _unit(rnd, body)
+    unit["routines"][0]["decls"].append(
+        decl(nm, "r", param=R(2.0)) if caller_param else decl(nm, "r"))
+    unit["extra_modules"] = [{"name": "a_mod", "decls": [
+        decl(nm, "r", param=R(4.0)), decl("other", "r", param=R(1.0))]}]
+    unit["routines"].append({
+        "kind": "subroutine", "name": "cimp", "args": ["x"],
+        "uses": ["a_mod, only: " + nm],
+        "decls": [decl("x", "r", intent="inout")],
+        "body": [["assign", V("x"), B("*", V("x"), V(nm))]],
+        "result": None})
+    return unit
 
 
 SCENARIOS["inline"] = inline
@@ -506,6 +636,15 @@ def access(rnd, hazard):
                               decl("q", "r", intent="out")],
                     "body": [["assign", V("q"), B("+", V("p"), R(1.0))]],
                     "result": None})
+    # elemental subroutines (an ELEMENTAL routine without IMPURE is pure by
+    # the standard, but PSyclone only knows the explicit prefix)
+    for nm, pre in (("eset", "elemental "), ("ieset", "impure elemental ")):
+        callees.append({"kind": "subroutine", "name": nm, "prefix": pre,
+                        "args": ["p", "q"],
+                        "decls": [decl("p", "r", intent="in"),
+                                  decl("q", "r", intent="out")],
+                        "body": [["assign", V("q"), B("-", V("p"), R(1.0))]],
+                        "result": None})
     callees.append({"kind": "subroutine", "name": "upd", "args": ["v", "m",
                                                                  "kk"],
                     "decls": [decl("m", "i", intent="in"),
@@ -535,6 +674,10 @@ def access(rnd, hazard):
         elif x < 0.4:
             extra.append(["call", "psetv", [V("x2"), rnd.choice(
                 [V("x1"), A(arr, I(1))])]])
+        elif x < 0.5:
+            extra.append(["call", rnd.choice(["eset", "ieset"]),
+                          [rnd.choice([V("x2"), A(arr, I(1))]),
+                           rnd.choice([V("x1"), A(arr, V("n"))])]])
         elif x < 0.6:
             extra.append(["call", "upd", [V(arr), V("n"), V("s1")]])
         elif x < 0.75:
